@@ -1,10 +1,12 @@
-import OpusModel.Kernels
+import OpusModel.KernelsNsq
 import Mathlib.Tactic.Linarith
 /-
-  OpusProofs.KernelsNsq — the one primitive of the NSQ SIMD kernels that has a Lean model: the mul_epi32 / srli / slli /
-  blend idiom computes silk_SMULWW in every lane (modular arithmetic, `omega` with the exact product as an atom).
+  OpusProofs.KernelsNsq — silk_nsq_scale_states_sse4_1 = silk_nsq_scale_states, the VAD sub-frame energy, and
+  silk_sar_round_smulww: modular arithmetic with `omega` (exact products as atoms), list loops through `mapIdx`.
 -/
 namespace Opus.Kernels
+
+/-! ### the SMULWW lane idiom -/
 
 theorem smulwwLaneSse_eq (v g : Int) (odd : Bool) : wrap32 (smulwwLaneSse v g odd) = smulww v g := by
   have hv : -2147483648 ≤ wrap32 v ∧ wrap32 v < 2147483648 := by unfold wrap32; omega
@@ -14,5 +16,245 @@ theorem smulwwLaneSse_eq (v g : Int) (odd : Bool) : wrap32 (smulwwLaneSse v g od
   unfold smulwwLaneSse smulww
   generalize wrap32 v * wrap32 g = P at hp ⊢
   cases odd <;> simp only [] <;> unfold wrap32 <;> omega
+
+theorem smulww_comm (a b : Int) : smulww a b = smulww b a := by
+  unfold smulww; rw [Int.mul_comm]
+
+/-! ### list loops in closed form -/
+
+theorem scalarLoop_eq (f : Int → Int) (c i : Nat) (l : List Int) :
+    scalarLoop f c i l = l.mapIdx (fun j v => if i ≤ j ∧ j < i + c then f v else v) := by
+  induction c generalizing i l with
+  | zero =>
+    apply List.ext_getElem?; intro j
+    simp only [scalarLoop, List.getElem?_mapIdx]
+    cases l[j]? <;> simp
+    intro h1 h2; omega
+  | succ c ih =>
+    show scalarLoop f c (i + 1) (setAt l i f) = _
+    rw [ih]
+    apply List.ext_getElem?; intro j
+    simp only [setAt, List.getElem?_mapIdx]
+    cases l[j]? with
+    | none => rfl
+    | some v =>
+      simp only [Option.map_some]
+      by_cases h1 : j = i
+      · subst h1
+        have h2 : ¬ (j + 1 ≤ j ∧ j < j + 1 + c) := by omega
+        have h3 : j ≤ j ∧ j < j + (c + 1) := by omega
+        simp [h2, h3]
+      · by_cases h2 : i + 1 ≤ j ∧ j < i + 1 + c
+        · have h3 : i ≤ j ∧ j < i + (c + 1) := by omega
+          simp [h1, h2, h3]
+        · have h3 : ¬ (i ≤ j ∧ j < i + (c + 1)) := by omega
+          simp [h1, h2, h3]
+
+theorem sseBlocks_eq (g : Int) (b i : Nat) (l : List Int) :
+    sseBlocks g b i l = l.mapIdx (fun j v => if i ≤ j ∧ j < i + 4 * b then smulww g v else v) := by
+  induction b generalizing i l with
+  | zero =>
+    apply List.ext_getElem?; intro j
+    simp only [sseBlocks, List.getElem?_mapIdx]
+    cases l[j]? <;> simp
+    intro h1 h2; omega
+  | succ b ih =>
+    show sseBlocks g b (i + 4) (sseBlock g l i) = _
+    rw [ih]
+    apply List.ext_getElem?; intro j
+    simp only [sseBlock, List.getElem?_mapIdx]
+    cases l[j]? with
+    | none => rfl
+    | some v =>
+      simp only [Option.map_some, smulwwLaneSse_eq, smulww_comm v g]
+      by_cases h0 : j = i
+      · have h2 : ¬ (i + 4 ≤ j ∧ j < i + 4 + 4 * b) := by omega
+        have h3 : i ≤ j ∧ j < i + 4 * (b + 1) := by omega
+        simp [h0, h2, h3]
+      · by_cases h1 : j = i + 1
+        · have h2 : ¬ (i + 4 ≤ j ∧ j < i + 4 + 4 * b) := by omega
+          have h3 : i ≤ j ∧ j < i + 4 * (b + 1) := by omega
+          simp [h0, h1, h2, h3]
+        · by_cases h1' : j = i + 2
+          · have h2 : ¬ (i + 4 ≤ j ∧ j < i + 4 + 4 * b) := by omega
+            have h3 : i ≤ j ∧ j < i + 4 * (b + 1) := by omega
+            simp [h0, h1, h1', h2, h3]
+          · by_cases h1'' : j = i + 3
+            · have h2 : ¬ (i + 4 ≤ j ∧ j < i + 4 + 4 * b) := by omega
+              have h3 : i ≤ j ∧ j < i + 4 * (b + 1) := by omega
+              simp [h0, h1, h1', h1'', h2, h3]
+            · by_cases h2 : i + 4 ≤ j ∧ j < i + 4 + 4 * b
+              · have h3 : i ≤ j ∧ j < i + 4 * (b + 1) := by omega
+                simp [h0, h1, h1', h1'', h2, h3]
+              · have h3 : ¬ (i ≤ j ∧ j < i + 4 * (b + 1)) := by omega
+                simp [h0, h1, h1', h1'', h2, h3]
+
+/-- blocks of four + scalar tail = the portable loop, for every range (also empty and shorter than four). -/
+theorem vecSmulwwSse_eq : vecSmulwwSse = vecSmulwwC := by
+  funext g l lo hi
+  unfold vecSmulwwSse vecSmulwwC
+  simp only [scalarLoop_eq, sseBlocks_eq, List.mapIdx_mapIdx]
+  apply List.ext_getElem?; intro j
+  simp only [List.getElem?_mapIdx]
+  cases l[j]? with
+  | none => rfl
+  | some v =>
+    simp only [Option.map_some, Function.comp]
+    have hd := Nat.mul_div_le (hi - lo) 4
+    by_cases h1 : lo ≤ j ∧ j < lo + 4 * ((hi - lo) / 4)
+    · have h2 : ¬ (lo + 4 * ((hi - lo) / 4) ≤ j ∧ j < lo + 4 * ((hi - lo) / 4) + (hi - lo - 4 * ((hi - lo) / 4))) := by omega
+      have h3 : lo ≤ j ∧ j < lo + (hi - lo) := by omega
+      simp [h1, h2, h3]
+    · by_cases h2 : lo + 4 * ((hi - lo) / 4) ≤ j ∧ j < lo + 4 * ((hi - lo) / 4) + (hi - lo - 4 * ((hi - lo) / 4))
+      · have h3 : lo ≤ j ∧ j < lo + (hi - lo) := by omega
+        simp [h1, h2, h3]
+      · have h3 : ¬ (lo ≤ j ∧ j < lo + (hi - lo)) := by omega
+        simp [h1, h2, h3]
+
+theorem nsqScaleStatesSse_eq (inp : NsqScIn) (st : NsqSc) : nsqScaleStatesSse inp st = nsqScaleStatesC inp st := by
+  unfold nsqScaleStatesSse nsqScaleStatesC
+  rw [vecSmulwwSse_eq]
+
+/-! ### VAD sub-frame energy -/
+
+/-- the square one sample contributes. -/
+def vadSq (v : Int) : Int := sext16 (sext16 v / 8) * sext16 (sext16 v / 8)
+
+def sqSum (x : Nat → Int) (i : Nat) : Nat → Int
+  | 0 => 0
+  | c + 1 => vadSq (x i) + sqSum x (i + 1) c
+
+theorem wrap32_idem (a : Int) : wrap32 (wrap32 a) = wrap32 a := by unfold wrap32; omega
+theorem wrap32_add_left (a b : Int) : wrap32 (wrap32 a + b) = wrap32 (a + b) := by unfold wrap32; omega
+
+theorem sqSum_add (x : Nat → Int) (i a b : Nat) : sqSum x i (a + b) = sqSum x i a + sqSum x (i + a) b := by
+  induction a generalizing i with
+  | zero => simp [sqSum]
+  | succ a ih =>
+    have e : a + 1 + b = (a + b) + 1 := by omega
+    rw [e]; simp only [sqSum]; rw [ih]
+    have e2 : i + 1 + a = i + (a + 1) := by omega
+    rw [e2]; omega
+
+theorem vadLoop_eq (x : Nat → Int) (c i : Nat) (acc : Int) :
+    wrap32 (vadLoop x c i acc) = wrap32 (acc + sqSum x i c) ∧ (0 < c → wrap32 (vadLoop x c i acc) = vadLoop x c i acc) := by
+  induction c generalizing i acc with
+  | zero => simp [vadLoop, sqSum]
+  | succ c ih =>
+    have h := ih (i + 1) (vadStep acc (x i))
+    simp only [vadLoop, sqSum]
+    constructor
+    · rw [h.1]
+      unfold vadStep smlabb vadSq
+      simp only []
+      generalize sext16 (sext16 (x i) / 8) * sext16 (sext16 (x i) / 8) = q
+      rw [wrap32_add_left]
+      congr 1; omega
+    · intro _
+      by_cases hc : 0 < c
+      · exact h.2 hc
+      · have : c = 0 := by omega
+        subst this
+        simp only [vadLoop]
+        unfold vadStep smlabb; simp only []; exact wrap32_idem _
+
+theorem sext16_small (t : Int) (h : -4096 ≤ t ∧ t ≤ 4095) : sext16 t = t := by unfold sext16; omega
+theorem sext16_div8 (v : Int) : -4096 ≤ sext16 v / 8 ∧ sext16 v / 8 ≤ 4095 := by unfold sext16; omega
+
+/-- one madd lane = the two squares (no wrap can occur: both are at most 2^24). -/
+theorem maddSq_eq (x : Nat → Int) (k : Nat) : maddSq x k = vadSq (x (2 * k)) + vadSq (x (2 * k + 1)) := by
+  unfold maddSq vadSq
+  simp only []
+  rw [sext16_small _ (sext16_div8 _), sext16_small _ (sext16_div8 _)]
+  have h1 := sext16_div8 (x (2 * k))
+  have h2 := sext16_div8 (x (2 * k + 1))
+  have a1 : 0 ≤ sext16 (x (2 * k)) / 8 * (sext16 (x (2 * k)) / 8) ∧ sext16 (x (2 * k)) / 8 * (sext16 (x (2 * k)) / 8) ≤ 16777216 := by
+    constructor <;> nlinarith [h1.1, h1.2]
+  have a2 : 0 ≤ sext16 (x (2 * k + 1)) / 8 * (sext16 (x (2 * k + 1)) / 8) ∧ sext16 (x (2 * k + 1)) / 8 * (sext16 (x (2 * k + 1)) / 8) ≤ 16777216 := by
+    constructor <;> nlinarith [h2.1, h2.2]
+  generalize sext16 (x (2 * k)) / 8 * (sext16 (x (2 * k)) / 8) = p at a1 ⊢
+  generalize sext16 (x (2 * k + 1)) / 8 * (sext16 (x (2 * k + 1)) / 8) = q at a2 ⊢
+  unfold wrap32; omega
+
+theorem sqSum_eight (x : Nat → Int) (i : Nat) :
+    sqSum x i 8 = vadSq (x i) + vadSq (x (i + 1)) + vadSq (x (i + 2)) + vadSq (x (i + 3)) + vadSq (x (i + 4)) +
+      vadSq (x (i + 5)) + vadSq (x (i + 6)) + vadSq (x (i + 7)) := by
+  simp only [sqSum, Nat.add_assoc]; omega
+
+/-- the four accumulator lanes together hold the sum of all squares seen so far, modulo 2^32. -/
+theorem vadAccLoop_eq (x : Nat → Int) (b i : Nat) (acc : Nat → Int) :
+    wrap32 (vadAccLoop x b i acc 0 + vadAccLoop x b i acc 1 + vadAccLoop x b i acc 2 + vadAccLoop x b i acc 3) =
+      wrap32 (acc 0 + acc 1 + acc 2 + acc 3 + sqSum x i (8 * b)) := by
+  induction b generalizing i acc with
+  | zero => simp [vadAccLoop, sqSum]
+  | succ b ih =>
+    simp only [vadAccLoop]
+    rw [ih]
+    have e : 8 * (b + 1) = 8 + 8 * b := by omega
+    rw [e, sqSum_add, sqSum_eight]
+    simp only [maddSq_eq, Nat.mul_zero, Nat.add_zero, Nat.mul_one]
+    generalize sqSum x (i + 8) (8 * b) = R
+    generalize vadSq (x i) = q0
+    generalize vadSq (x (i + 1)) = q1
+    have e2 : i + 2 * 1 = i + 2 := by omega
+    have e3 : i + (2 * 1 + 1) = i + 3 := by omega
+    have e4 : i + 2 * 2 = i + 4 := by omega
+    have e5 : i + (2 * 2 + 1) = i + 5 := by omega
+    have e6 : i + 2 * 3 = i + 6 := by omega
+    have e7 : i + (2 * 3 + 1) = i + 7 := by omega
+    have e1 : i + (0 + 1) = i + 1 := by omega
+    simp only [e1, e2, e3, e4, e5, e6, e7]
+    generalize vadSq (x (i + 2)) = q2
+    generalize vadSq (x (i + 3)) = q3
+    generalize vadSq (x (i + 4)) = q4
+    generalize vadSq (x (i + 5)) = q5
+    generalize vadSq (x (i + 6)) = q6
+    generalize vadSq (x (i + 7)) = q7
+    unfold wrap32; omega
+
+theorem vadEnergyC_eq (x : Nat → Int) (n : Nat) : vadEnergyC x n = wrap32 (sqSum x 0 n) := by
+  unfold vadEnergyC
+  cases n with
+  | zero => simp [vadLoop, sqSum, wrap32]
+  | succ n =>
+    have h := vadLoop_eq x (n + 1) 0 0
+    rw [← h.2 (by omega), h.1]; simp
+
+theorem vadEnergySse_eq (x : Nat → Int) (n : Nat) : vadEnergySse x n = vadEnergyC x n := by
+  rw [vadEnergyC_eq]
+  unfold vadEnergySse
+  simp only []
+  have hle := Nat.mul_div_le n 8
+  have hacc := vadAccLoop_eq x (n / 8) 0 (fun _ => 0)
+  simp only [Int.add_zero, Int.zero_add] at hacc
+  generalize vadAccLoop x (n / 8) 0 (fun _ => 0) = acc at hacc ⊢
+  have hsplit : n = 8 * (n / 8) + (n - 8 * (n / 8)) := by omega
+  have hS : sqSum x 0 n = sqSum x 0 (8 * (n / 8)) + sqSum x (8 * (n / 8)) (n - 8 * (n / 8)) := by
+    conv_lhs => rw [hsplit]
+    rw [sqSum_add]; simp
+  have hsum0 : wrap32 (0 + wrap32 (wrap32 (acc 0 + acc (0 + 2)) + wrap32 (acc 1 + acc (1 + 2)))) =
+      wrap32 (sqSum x 0 (8 * (n / 8))) := by
+    rw [← hacc]; simp only [Nat.zero_add]; unfold wrap32; omega
+  by_cases hc : 0 < n - 8 * (n / 8)
+  · have h := vadLoop_eq x (n - 8 * (n / 8)) (8 * (n / 8))
+      (wrap32 (0 + wrap32 (wrap32 (acc 0 + acc (0 + 2)) + wrap32 (acc 1 + acc (1 + 2)))))
+    rw [← h.2 hc, h.1, hsum0, wrap32_add_left, hS]
+  · have h0 : n - 8 * (n / 8) = 0 := by omega
+    rw [h0] at hS ⊢
+    simp only [vadLoop, sqSum, Int.add_zero] at hS ⊢
+    rw [hsum0, hS]
+
+/-! ### silk_sar_round_smulww -/
+
+theorem sarRound_avx2_eq_c (a b : Int) (bits : Nat) : sarRoundSmulwwAvx2 a b bits = sarRoundSmulwwC a b bits := rfl
+
+/-- the 64-bit form agrees with the C expression exactly as long as `(a*b) >> 16` fits 32 bits (shown for the two
+    shift counts the kernel uses, 8 and 14). -/
+theorem sarRound64_eq_c_of_fits (a b : Int)
+    (hfit : -2147483648 ≤ wrap32 a * wrap32 b / 65536 ∧ wrap32 a * wrap32 b / 65536 < 2147483648) :
+    sarRoundSmulww64 a b 8 = sarRoundSmulwwC a b 8 ∧ sarRoundSmulww64 a b 14 = sarRoundSmulwwC a b 14 := by
+  unfold sarRoundSmulww64 sarRoundSmulwwC rshiftRound smulww
+  generalize wrap32 a * wrap32 b = P at hfit ⊢
+  constructor <;> (simp only []; unfold wrap32; norm_num; omega)
 
 end Opus.Kernels
